@@ -2,6 +2,7 @@ import QipVerif.Lemmas.RenderWidth
 /-! C20: the invariant of the main loop of `layout` and its consequences
 (`len row[w] ≤ Σ layer_list[w]`; classical wires never get ahead of qubit 0). -/
 namespace QipVerif.Render
+variable {v : Variant}
 
 /-- The loop invariant of `layout` (for circuits whose elements satisfy `opOk`). -/
 structure Inv (N : Nat) (st : St) : Prop where
